@@ -15,6 +15,7 @@
   `ndlModel` is one instance (`ndlModelWith_countNames`).
 -/
 import PyndlProofs.NdlCall
+import PyndlProofs.PermEvents
 
 set_option linter.unusedSectionVars false
 set_option linter.unusedVariables false
@@ -107,5 +108,186 @@ theorem ndlModelWith_order_irrelevant (reorder : Event Nat Nat → Event Nat Nat
     (fun e he o ho => hpo.mem_iff.mpr ((countNames_mem es e he).2 o ho))
     hfit.nEvents hfit.perEvent
   exact ⟨w, w₀, h, h₀, lc, lo, fun o c => by rw [g o c, g₀ o c]⟩
+
+/-! ## the same for events that differ in the order INSIDE the events
+
+`create_event_file(remove_duplicates=True)` writes `set(cues)`, i.e. the real
+event file agrees with the model's only up to the order of the cues and of the
+outcomes inside each event (`EventsPerm`).  The generalised model on ANY such
+list, with any label order and any id order, denotes the same weights. -/
+
+/-- **`EventsPerm` lists give the same `ndl.ndl` weights.**  `es₁`: the events as
+    the models have them; `es₂`: any list that agrees with it event by event up
+    to the order inside the events (`h`); label lists `cues`, `outs`: any
+    permutations of the names (of either list — they have the same names);
+    `reorder`: any per-event reordering of the ids.  All hypotheses are on `es₁`.
+    Then the generalised model on `es₂` succeeds, is labelled as given, and is at
+    every pair of names the specification on the policy-processed `es₁`. -/
+theorem ndlModelWith_events_perm (reorder : Event Nat Nat → Event Nat Nat)
+    (hre : ∀ e, (reorder e).cues ~ e.cues ∧ (reorder e).outcomes ~ e.outcomes)
+    (magic version : Nat) (hm : magic < 4294967296) (hv : version < 4294967296)
+    (cfg : NdlCfg) (alpha β₁ β₂ lam : R) (es₁ es₁' es₂ : List (Event String String)) (h : EventsPerm es₁ es₂)
+    (cues outs : List String) (hpc : cues ~ (countNames es₁).1) (hpo : outs ~ (countNames es₁).2)
+    (hcfg : CfgOK cfg (countNames es₁).2.length)
+    (hp : applyPolicyAll cfg.policy es₁ = some es₁') (hfit : Fits32 es₁) :
+    ∃ w, ndlModelWith reorder magic version cfg alpha β₁ β₂ lam cues outs es₂ = .ok (w, es₂.length) ∧
+      w.cues = cues ∧ w.outcomes = outs ∧
+      ∀ o c, w.get o c = rwLearn (fun _ => alpha) β₁ β₂ lam (fun _ _ => (0 : R)) es₁' o c := by
+  obtain ⟨es₂', hp₂, hperm'⟩ := applyPolicyAll_perm_some cfg.policy es₁ es₂ es₁' h hp
+  obtain ⟨pc, po⟩ := countNames_perm h
+  have hfit₂ := fits32_perm h hfit
+  obtain ⟨w, hw, lc, lo, g⟩ := ndlModelWith_eq_spec reorder hre magic version hm hv cfg alpha β₁ β₂ lam cues outs
+    (by rw [hpo.length_eq]; exact hcfg) (by rw [hpc.length_eq]; exact hfit.nCues)
+    (by rw [hpo.length_eq]; exact hfit.nOuts) es₂ es₂' hp₂
+    (fun e he c hc => hpc.mem_iff.mpr (pc.mem_iff.mpr ((countNames_mem es₂ e he).1 c hc)))
+    (fun e he o ho => hpo.mem_iff.mpr (po.mem_iff.mpr ((countNames_mem es₂ e he).2 o ho)))
+    hfit₂.nEvents hfit₂.perEvent
+  refine ⟨w, hw, lc, lo, fun o c => ?_⟩
+  rw [g o c, rwLearn_perm_events (fun _ => alpha) β₁ β₂ lam _ es₁' es₂' hperm']
+
+/-! ## continued learning: the order of the APPENDED labels
+
+With `weights=` the code appends the new names as
+`list(set(cues) - set(old_cues))` (ndl.py:175-178): a Python `set` difference,
+i.e. in hash order, where `ndlModel (some w)` appends them in order of first
+occurrence.  `ndlModelContWith` takes the appended lists as PARAMETERS. -/
+
+/-- `ndl.ndl(weights=w)` with GIVEN lists of appended labels `newCues`, `newOuts`
+    (any enumeration of the new names) and a per-event reordering of the ids -/
+def ndlModelContWith (reorder : Event Nat Nat → Event Nat Nat) (magic version : Nat) (cfg : NdlCfg)
+    (alpha β₁ β₂ lam : R) (w : LW R) (newCues newOuts : List String) (es : List (Event String String)) :
+    Except Err (LW R × Nat) :=
+  ndlCoreWith reorder magic version cfg alpha β₁ β₂ lam (w.cues ++ newCues) (w.outcomes ++ newOuts)
+    (extendVals w.vals w.outcomes.length w.cues.length (w.outcomes ++ newOuts).length (w.cues ++ newCues).length) es
+
+/-- `ndlModel (some w)` is the instance "new names in first-occurrence order, ids as written" -/
+theorem ndlModelContWith_first_occurrence (magic version : Nat) (cfg : NdlCfg) (alpha β₁ β₂ lam : R) (w : LW R)
+    (es : List (Event String String)) :
+    ndlModelContWith id magic version cfg alpha β₁ β₂ lam w
+        ((countNames es).1.filter (fun c => !w.cues.contains c))
+        ((countNames es).2.filter (fun o => !w.outcomes.contains o)) es
+      = ndlModel magic version cfg alpha β₁ β₂ lam (some w) es := by
+  unfold ndlModelContWith
+  rw [ndlCoreWith_id, ndlModel_some]
+
+theorem filter_new_of_disjoint (old new : List String) (h : ∀ c ∈ new, c ∉ old) :
+    new.filter (fun c => !old.contains c) = new := by
+  apply List.filter_eq_self.mpr
+  intro c hc
+  simp [h c hc]
+
+/-- **continued `ndl.ndl` = specification continued, for EVERY order of the
+    appended labels and every order of the ids inside an event.**  `newCues`,
+    `newOuts`: any lists disjoint from the given labels such that all names of
+    the events are labels (the real ones enumerate exactly the new names, each
+    once, in hash order; neither exactness nor `Nodup` is needed).  The result
+    is labelled `w.cues ++ newCues`, `w.outcomes ++ newOuts` and its value at
+    EVERY pair of names is `rwLearn` continued from the weight function `w`
+    denotes — a right-hand side that mentions neither the appended lists nor
+    `reorder`. -/
+theorem ndlModelContWith_eq_spec (reorder : Event Nat Nat → Event Nat Nat)
+    (hre : ∀ e, (reorder e).cues ~ e.cues ∧ (reorder e).outcomes ~ e.outcomes)
+    (magic version : Nat) (hm : magic < 4294967296) (hv : version < 4294967296)
+    (cfg : NdlCfg) (alpha β₁ β₂ lam : R) (w : LW R) (newCues newOuts : List String)
+    (hdc : ∀ c ∈ newCues, c ∉ w.cues) (hdo : ∀ o ∈ newOuts, o ∉ w.outcomes)
+    (hcfg : CfgOK cfg (w.outcomes ++ newOuts).length)
+    (hnc : (w.cues ++ newCues).length < 4294967296) (hno : (w.outcomes ++ newOuts).length < 4294967296)
+    (es es' : List (Event String String)) (hp : applyPolicyAll cfg.policy es = some es')
+    (hmemc : ∀ e ∈ es, ∀ c ∈ e.cues, c ∈ w.cues ++ newCues)
+    (hmemo : ∀ e ∈ es, ∀ o ∈ e.outcomes, o ∈ w.outcomes ++ newOuts)
+    (hn : es.length < 4294967296)
+    (hpe : ∀ e ∈ es, e.cues.length < 4294967296 ∧ e.outcomes.length < 4294967296) :
+    ∃ r, ndlModelContWith reorder magic version cfg alpha β₁ β₂ lam w newCues newOuts es = .ok (r, es.length) ∧
+      r.cues = w.cues ++ newCues ∧ r.outcomes = w.outcomes ++ newOuts ∧
+      ∀ o c, r.get o c = rwLearn (fun _ => alpha) β₁ β₂ lam (fun o c => w.get o c) es' o c := by
+  unfold ndlModelContWith
+  set cues := w.cues ++ newCues with hcues
+  set outs := w.outcomes ++ newOuts with houts
+  have hinit : ∀ o c, o ∈ outs → c ∈ cues →
+      rowFn cues.length (extendVals w.vals w.outcomes.length w.cues.length outs.length cues.length)
+        (outs.idxOf o) (cues.idxOf c) = w.get o c := by
+    intro o c ho hc
+    have hi : outs.idxOf o < outs.length := List.idxOf_lt_length_iff.mpr ho
+    have hj : cues.idxOf c < cues.length := List.idxOf_lt_length_iff.mpr hc
+    have hext := extendLW_get w newCues newOuts o c
+    rw [← hext]
+    unfold extendLW LW.get rowFn flatIdx
+    simp only [filter_new_of_disjoint _ _ hdc, filter_new_of_disjoint _ _ hdo]
+    simp only [hj, if_true]
+    have hi' : (w.outcomes ++ newOuts).idxOf o < (w.outcomes ++ newOuts).length := hi
+    have hj' : (w.cues ++ newCues).idxOf c < (w.cues ++ newCues).length := hj
+    rw [if_pos ⟨hi', hj'⟩, Nat.mul_comm]
+  obtain ⟨vals', hrun, hget⟩ := ndlCoreWith_spec reorder hre magic version hm hv cfg alpha β₁ β₂ lam cues outs hcfg
+    hnc hno _ (by rw [size_extendVals, Nat.mul_comm])
+    es es' hp hmemc hmemo hn hpe (fun o c => w.get o c) hinit
+  have hes' : ∀ e' ∈ es', (∀ c ∈ e'.cues, c ∈ cues) ∧ (∀ o ∈ e'.outcomes, o ∈ outs) := by
+    intro e' he'
+    obtain ⟨e, he, hpe'⟩ := applyPolicyAll_mem cfg.policy es es' hp e' he'
+    obtain ⟨s1, s2, _, _⟩ := applyPolicy_sub cfg.policy e e' hpe'
+    exact ⟨fun c hc => hmemc e he c ((s1 c).mp hc), fun o ho => hmemo e he o ((s2 o).mp ho)⟩
+  refine ⟨⟨outs, cues, vals'⟩, hrun, rfl, rfl, ?_⟩
+  intro o c
+  by_cases ho : o ∈ outs
+  · by_cases hc : c ∈ cues
+    · exact hget o c ho hc
+    · have hcw : c ∉ w.cues := fun h => hc (List.mem_append_left _ h)
+      rw [LW.get_not_cue _ o c hc, rwLearn_unseen_cue _ _ _ _ _ _ o c
+        (fun e he hce => hc ((hes' e he).1 c hce)), LW.get_not_cue w o c hcw]
+  · have how : o ∉ w.outcomes := fun h => ho (List.mem_append_left _ h)
+    rw [LW.get_not_outcome _ o c ho]
+    have hz : (fun c => w.get o c) = fun _ => (0 : R) := by
+      funext c'; exact LW.get_not_outcome w o c' how
+    have := rwLearn_unseen_outcome (fun _ => alpha) β₁ β₂ lam (fun o c => w.get o c) es' o
+      (fun e he hoe => ho ((hes' e he).2 o hoe)) hz
+    rw [this]
+
+/-- **with `weights=`, the order of the appended labels (the hash order of
+    `set(cues) - set(old_cues)`) and the order of the ids inside the events are
+    irrelevant**: for `newCues`, `newOuts` any PERMUTATIONS of the new names in
+    first-occurrence order, the generalised model and `ndlModel (some w)` both
+    succeed, report the same count, and denote the SAME weight function; the
+    labels are the given ones followed by `newCues` / `newOuts`. -/
+theorem ndlModelContWith_order_irrelevant (reorder : Event Nat Nat → Event Nat Nat)
+    (hre : ∀ e, (reorder e).cues ~ e.cues ∧ (reorder e).outcomes ~ e.outcomes)
+    (magic version : Nat) (hm : magic < 4294967296) (hv : version < 4294967296)
+    (cfg : NdlCfg) (alpha β₁ β₂ lam : R) (w : LW R) (es es' : List (Event String String))
+    (newCues newOuts : List String)
+    (hpc : newCues ~ (countNames es).1.filter (fun c => !w.cues.contains c))
+    (hpo : newOuts ~ (countNames es).2.filter (fun o => !w.outcomes.contains o))
+    (hcfg : CfgOK cfg (mergedOutcomes w es).length)
+    (hp : applyPolicyAll cfg.policy es = some es') (hfit : Fits32With w es) :
+    ∃ r r₀, ndlModelContWith reorder magic version cfg alpha β₁ β₂ lam w newCues newOuts es = .ok (r, es.length) ∧
+      ndlModel magic version cfg alpha β₁ β₂ lam (some w) es = .ok (r₀, es.length) ∧
+      r.cues = w.cues ++ newCues ∧ r.outcomes = w.outcomes ++ newOuts ∧
+      ∀ o c, r.get o c = r₀.get o c := by
+  obtain ⟨r₀, h₀, g₀⟩ := ndlModel_continue_eq_spec magic version hm hv cfg alpha β₁ β₂ lam w es es' hcfg hp hfit
+  have hdc : ∀ c ∈ newCues, c ∉ w.cues := by
+    intro c hc hcw
+    have := (List.mem_filter.mp (hpc.mem_iff.mp hc)).2
+    simp [hcw] at this
+  have hdo : ∀ o ∈ newOuts, o ∉ w.outcomes := by
+    intro o ho how
+    have := (List.mem_filter.mp (hpo.mem_iff.mp ho)).2
+    simp [how] at this
+  have hlc : (w.cues ++ newCues).length
+      = (w.cues ++ (countNames es).1.filter (fun c => !w.cues.contains c)).length := by
+    rw [List.length_append, List.length_append, hpc.length_eq]
+  have hlo : (w.outcomes ++ newOuts).length
+      = (w.outcomes ++ (countNames es).2.filter (fun o => !w.outcomes.contains o)).length := by
+    rw [List.length_append, List.length_append, hpo.length_eq]
+  have hmemc : ∀ e ∈ es, ∀ c ∈ e.cues, c ∈ w.cues ++ newCues := by
+    intro e he c hc
+    rcases List.mem_append.mp (mem_append_filter_new w.cues _ c ((countNames_mem es e he).1 c hc)) with h | h
+    · exact List.mem_append_left _ h
+    · exact List.mem_append_right _ (hpc.mem_iff.mpr h)
+  have hmemo : ∀ e ∈ es, ∀ o ∈ e.outcomes, o ∈ w.outcomes ++ newOuts := by
+    intro e he o ho
+    rcases List.mem_append.mp (mem_append_filter_new w.outcomes _ o ((countNames_mem es e he).2 o ho)) with h | h
+    · exact List.mem_append_left _ h
+    · exact List.mem_append_right _ (hpo.mem_iff.mpr h)
+  obtain ⟨r, h, lc, lo, g⟩ := ndlModelContWith_eq_spec reorder hre magic version hm hv cfg alpha β₁ β₂ lam w
+    newCues newOuts hdc hdo (by rw [hlo]; exact hcfg) (by rw [hlc]; exact hfit.nCues)
+    (by rw [hlo]; exact hfit.nOuts) es es' hp hmemc hmemo hfit.nEvents hfit.perEvent
+  exact ⟨r, r₀, h, h₀, lc, lo, fun o c => by rw [g o c, g₀ o c]⟩
 
 end Pyndl
